@@ -30,7 +30,7 @@ from drivers.httpwire_exec import Run, mon_trace, strict_trace, units_of
 
 CLAUSES = {1: 'Payload', 2: 'TruncIsError', 3: 'CompleteIsOk', 4: 'NoOverRead', 5: 'Persist', 6: 'NoHang',
            11: 'RespBytes', 12: 'ReqBytes', 13: 'RecCount', 14: 'RecAtMostOne', 15: 'RecBlocks', 16: 'RecLinked',
-           17: 'NoStray', 18: 'EventPairs'}
+           17: 'NoStray', 18: 'EventPairs', 19: 'WarcParses', 20: 'RevisitBlocks'}
 C08_INVS = ['D_Payload', 'D_TruncIsError', 'D_CompleteIsOk', 'D_NoOverRead', 'D_Persist', 'NoHang']
 C04_INVS = ['D_RespBytes', 'ReqBytes', 'RecCount', 'RecAtMostOne', 'D_RecBlocks', 'RecLinked']
 ACTIONS = ['Start', 'Stall', 'HdrLine', 'Body', 'LenDone', 'LenEOF', 'LenRead', 'CloseEOF', 'CloseRead', 'ChHdr',
@@ -336,6 +336,18 @@ def run(chk):
             r = Run(exs, warc=warc)
             r.execute()
             runs.append(('random', NX, exs, r))
+    if warc:
+        # --warc-dedup: the URL table knows some of the URLs with the payload about to be received -> revisit records
+        nd = 0
+        for (origin, NX, exs, r0) in list(runs):
+            if nd >= (150 if quick else 3000):
+                break
+            dd = [x for x in range(1, NX + 1) if rng.random() < 0.7] or [1]
+            r = Run(exs, warc=True, dedup=dd)
+            r.execute()
+            runs.append(('dedup', NX, exs, r))
+            nd += 1
+        chk.extra['dedup_runs'] = nd
     T['random_executed'] = time.time() - t00
     ngen = 0
     for NX, fut in gen_futs:
@@ -361,7 +373,7 @@ def run(chk):
             continue
         seen.add(key)
         chk.distinct.add(hash(key))
-        groups.setdefault(NX, []).append((origin, exs, r, mt, strict_trace(r)))
+        groups.setdefault(NX, []).append((origin, exs, r, mt, None if getattr(r, 'dedup', None) else strict_trace(r)))
 
     # one TLC job per chunk of traces, several at a time
     CH = 600 if quick else 1200
@@ -416,7 +428,9 @@ def run(chk):
                         and not any(M.msg_class(ex['cm'], fix) for ex in exs[:e['x']]):
                     strict_persist_notes += 1
             if m['bad']:
-                clause = CLAUSES.get(m['bad'], str(m['bad']))
+                if m['bad'] not in CLAUSES:
+                    raise tlc.TLCError('HttpWireMon reported an unknown clause %r' % (m,))
+                clause = CLAUSES[m['bad']]
                 e = mt['ev'][m['badline'] - 2] if 2 <= m['badline'] <= len(mt['ev']) + 1 else {}
                 x = e.get('x')
                 if x is None and e.get('e') in ('rec', 'warc_end'):
@@ -428,7 +442,7 @@ def run(chk):
                               % (clause, x, origin, ' | '.join(describe(ex) for ex in exs),
                                  json.dumps([{k: v for k, v in ev.items() if k not in ('srv',)}
                                              for ev in r.ev if ev['e'] in ('done', 'stall')])[:400]),
-                              {'warc': warc, 'exchanges': exchange_json(exs), 'clause': clause, 'exchange': x,
+                              {'warc': warc, 'dedup': list(getattr(r, 'dedup', [])), 'exchanges': exchange_json(exs), 'clause': clause, 'exchange': x,
                                'origin': origin, 'errors': r.error_detail})
             elif stt is None:
                 n_unabs += 1
@@ -532,7 +546,7 @@ def replay(chk, path):
     obj = json.load(open(path))
     rp = obj['replay']
     exs = exchange_from_json(rp['exchanges'])
-    r = Run(exs, warc=rp.get('warc', False))
+    r = Run(exs, warc=rp.get('warc', False), dedup=rp.get('dedup', ()))
     r.execute()
     for ex in exs:
         print('MESSAGE', describe(ex), 'pieces', ex['pieces'][:30])
